@@ -104,6 +104,9 @@ let rec parse_iops (toks : string list) : iop list =
        | 'S', [h; cb; base; wd] -> IStart (nat_ h, nat_ cb, nat_ base, z_of_string wd) :: parse_iops rest
        | 'T', [h] -> IStop (nat_ h) :: parse_iops rest
        | 'C', [h] -> IClose (nat_ h) :: parse_iops rest
+       | 'O', _ -> IObs :: parse_iops rest
+       | 'P', _ -> IChildEnd :: parse_iops rest
+       | 'Y', _ -> IFork (List.map z_of_string (List.filter (fun x -> x <> "") parts)) :: parse_iops rest
        | 'D', _ ->
            let rec go acc = function
              | t :: r when String.length t > 0 && t.[0] = 'e' ->
@@ -119,11 +122,14 @@ let rec parse_iops (toks : string list) : iop list =
 
 let fsevent_case (line : string) : string =
   match String.split_on_char ';' line with
-  | [ops; behs] ->
+  | ops :: behs :: more ->
       let ops = parse_iops (split_on ' ' ops) in
-      let beha = Array.of_list (List.map (fun b -> parse_iops (split_on ' ' b))
-                                  (String.split_on_char '|' behs)) in
-      let beh k = let k = int_of_nat k in if k < Array.length beha then beha.(k) else [] in
+      let mk b = Array.of_list (List.map (fun b -> parse_iops (split_on ' ' b)) (String.split_on_char '|' b)) in
+      let beha = mk behs in
+      let behc = match more with c :: _ -> mk c | [] -> [||] in       (* the child's callbacks: 1000 + k *)
+      let beh k = let k = int_of_nat k in
+                  if k >= 1000 then (if k - 1000 < Array.length behc then behc.(k - 1000) else [])
+                  else if k < Array.length beha then beha.(k) else [] in
       let (_, evs) = irun iinit ops beh O in
       let buf = Buffer.create 1024 in
       List.iter (fun e ->
@@ -133,7 +139,13 @@ let fsevent_case (line : string) : string =
              Buffer.add_string buf (Printf.sprintf "c%d,%d,%d,%s" (int_of_nat h) (int_of_nat cb)
                                       (int_of_nat nm) (string_of_z bits))
          | IRm wd -> Buffer.add_string buf ("m" ^ string_of_z wd)
-         | IClosed h -> Buffer.add_string buf (Printf.sprintf "x%d" (int_of_nat h)));
+         | IClosed h -> Buffer.add_string buf (Printf.sprintf "x%d" (int_of_nat h))
+         | IChildExit -> Buffer.add_char buf 'P'
+         | IObsE l ->
+             Buffer.add_char buf 'o';
+             List.iter (fun (a, b) ->
+               Buffer.add_string buf (Printf.sprintf "%d:%s," (if a then 1 else 0)
+                 (match b with Some n -> string_of_int (int_of_nat n) | None -> "-"))) l);
         Buffer.add_char buf ' ') evs;
       Buffer.contents buf
   | _ -> failwith "bad fs_event case"
